@@ -431,6 +431,12 @@ def drive(acc, case):
         items = make_ext(ext)
         out["items"] = items
         out["contexts"] = contexts
+        # contexts handed over may already carry an id (taken from an earlier association, or set by hand): whatever they
+        # carry, the ids on the wire are associate()'s own 1, 3, 5, ...
+        if alias_rng.random() < 0.3:
+            for cx in contexts:
+                if alias_rng.random() < 0.6:
+                    cx.context_id = alias_rng.choice([1, 1, 3, 5, 255])
         # how the requested contexts reach associate(): the `contexts` keyword, or the AE's own list (filled with
         # add_requested_context, or assigned): every route must end in the same validated request
         route = case[9] if len(case) > 9 else alias_rng.choice(["kw", "kw", "ae-add", "ae-set"])
